@@ -145,13 +145,15 @@ func vstubURLParse(s string) (*url.URL, error) {
 var (
 	vEscaped       = "<percent-escaped address>"
 	vEscapeCalls   int
+	vParseInput    string
 	vEscapeArgsOK  bool
 	vParsedEscaped bool
 )
 
 func vstubReplaceAll(s, old, new string) string {
 	vEscapeCalls++
-	vEscapeArgsOK = old == "%" && new == "%25"
+	// the whole address is escaped, not a part of it: '%' is not legal anywhere in what url.Parse accepts
+	vEscapeArgsOK = old == "%" && new == "%25" && len(s) == len(vParseInput) && unsafe.StringData(s) == unsafe.StringData(vParseInput)
 	return vEscaped
 }
 
@@ -180,6 +182,7 @@ func VH_C16_ParseDispatch() {
 	vJoinResult = "/cleaned"
 	var proto, ep string
 	var err error
+	vParseInput = in
 	p := vPanics(func() { proto, ep, err = parseProtoAddr(in) })
 	vAssert("C16.parse.never_panics", !p)
 	vAssert("C16.parse.parsed_once", vParseCalled == 1)
